@@ -10,8 +10,8 @@ Streams
             classes; exec bits; missing file objects / directory objects / hash-less entries.
   implicit  targets made of file entries only (and lazy directories below parents without an
             entry): the directories of the target are implicit trie nodes. delete=True only.
-  branch    the per-change branch of _compare alone, exhaustively (translation validation of
-            Model/IdxCheckout.v:compare_change).
+  branch    the per-change branch of _compare alone, exhaustively: translation validation of the GENERATED
+            Gen/IdxCompare.v:compare_branch (translator unit idxcompare) behind Model/IdxCheckout.v:compare_change.
 Every case is judged by the oracle (independent of the model) and by the correspondence."""
 
 import os
@@ -22,7 +22,7 @@ from lib import impl
 from lib.core import cN, cbool, cbytes, clist, copt, cpair, vL, vN
 
 PROPERTY = "C09"
-GEN = ["types", "idiff"]
+GEN = ["types", "idiff", "idxcompare"]
 RULE = (
     "names a/b/c at depth 1-3 so that prior and target collide; the prior workspace is either "
     "independent or derived from the target by file<->directory replacements at depth 1-3, nested "
